@@ -85,6 +85,9 @@ def run_partition(job):
                    max_steps=part.get('max_steps', lim['max_steps']),
                    logic=part.get('logic', lim.get('logic', "QF_BV")))
     core.CTX = ctx
+    # one solver query may not run for ever (a query that is cut off comes
+    # back `unknown`: the path aborts, the check is inconclusive - never a pass)
+    ctx.solver.set("timeout", int(1000 * part.get('solver_timeout', lim.get('solver_timeout', 120))))
     ctx.max_path_time = part.get('max_path_time', lim.get('max_path_time', 90))
     ctx.export = []
     ctx.export_every = lim.get('export_every', 0)
